@@ -98,6 +98,9 @@ def run_cfg(fe, tb, contexts, scratch, opts=None):
     if fe == "qcconfig":
         cfgd = {"contexts": [{**c, "streams": {"_stream": next(iter(c["streams"].values()))}} for c in cfgd["contexts"]
                              if c["streams"]]}
+        if len(cfgd["contexts"]) == 1 and "window" not in cfgd["contexts"][0] and "region" not in cfgd["contexts"][0]:
+            # the classic single-stream layout: a bare {package: {test: parameters}} mapping
+            cfgd = cfgd["contexts"][0]["streams"]["_stream"]
     res, err = P.run_frontend(fe, tb, cfgd, scratch, opts or {})
     if err is not None:
         return None, err
@@ -147,10 +150,12 @@ def run(ctx) -> None:
                                      with_pos=req != "no-pos")
                         lay = P.window_layouts(tb) if tb.with_time else [(None, None)]
                         w1 = rng.choice(lay)
+                        if fe == "qcconfig" and rng.random() < 0.5:
+                            w1 = (None, None)
                         w2 = rng.choice([w for w in lay if w != w1] or [w1])
                         healthy = [HEALTHY[k] for k in hk]
                         base = [{"window": w1, "streams": {"v1": list(healthy)}}]
-                        if rng.random() < 0.5 and w2 != w1:
+                        if rng.random() < 0.5 and w2 != w1 and not (fe == "qcconfig" and w1 == (None, None)):
                             base.append({"window": w2, "streams": {streams[-1]: [HEALTHY["probe"]]}})
                         nfaults = rng.choice([1, 1, 2, 3])
                         faulty = copy.deepcopy(base)
@@ -181,6 +186,8 @@ def run(ctx) -> None:
                                 # its own context with its own window, listed before or after the healthy contexts
                                 wx = (tb.secs[0] - 50 - k, tb.secs[0] - 40) if not tb.with_time else rng.choice(
                                     [w for w in lay if w not in (w1, w2)] or [(tb.secs[0] - 50 - k, tb.secs[0] - 40)])
+                                if rng.random() < 0.4:
+                                    wx = w1  # listed as a separate context entry with the same window: grouped with the healthy one
                                 newc = {"window": wx, "streams": {"v1": [entry]}}
                                 if p in ("before", "other-context"):
                                     faulty.insert(0, newc)
@@ -254,6 +261,47 @@ def run(ctx) -> None:
                                     if a != g and not multi:
                                         ctx.violation(f"C18:{fe}:differs-from-alone-run:{kinds}",
                                                       {**wb, "result": list(map(str, key)), "alone": a, "with_faults": g})
+        # ---- xarray: variables on different dimensions of different sizes; a test whose stream does not come with a required
+        #      input (position, time, depth) drops out, also right after a stream of the same context that does come with it
+        import xarray as xr  # noqa: PLC0415
+
+        for it in range(ctx.pick(40, 200)):
+            if not ctx.mine(it):
+                continue
+            nt, ns_ = rng.choice([(8, 3), (5, 7), (4, 2)])
+            tb = P.Table(nt, streams=("v1",))
+            ds = xr.Dataset({"v1": ("time", tb.data["v1"]), "b": ("station", np.array([2000.0 + k for k in range(ns_)]))},
+                            coords={"time": tb.time, "lat": ("time", tb.lat), "lon": ("time", tb.lon), "z": ("time", tb.z)})
+            hv1 = [HEALTHY["gross"], ("qartod", "location_test", {"bbox": [-180, -90, 180, 90]}), HEALTHY["spike"]][: rng.choice([1, 2, 3])]
+            hb = [("qartod", "gross_range_test", {"fail_span": [1999, 2004], "suspect_span": [2000, 2003]})]
+            fault = rng.choice([("qartod", "location_test", {"bbox": [-180, -90, 180, 90]}), ("qartod", "rate_of_change_test", {"threshold": 0.5}),
+                                ("qartod", "density_inversion_test", {"suspect_threshold": 1}),
+                                ("argo", "speed_test", {"suspect_threshold": 1, "fail_threshold": 2})])
+            fb = list(hb)
+            fb.insert(rng.choice([0, 1]), fault)
+            order = rng.choice([("v1", "b"), ("b", "v1")])
+            mk = lambda tests_b: P.build_config([{"window": (None, None), "streams": {k: (hv1 if k == "v1" else tests_b) for k in order}}])  # noqa: E731
+            from ioos_qc.config import Config  # noqa: PLC0415
+            from ioos_qc.streams import XarrayStream  # noqa: PLC0415
+            wb = {"kind": "fault-run", "frontend": "xarray-ds (two dimensions)", "time_rows": nt, "station_rows": ns_, "stream_order": list(order),
+                  "healthy_v1": core.jsonable(hv1), "stream_b_tests": core.jsonable(fb), "fault": core.jsonable(fault)}
+            try:
+                ref = snapshot(list(XarrayStream(ds).run(Config(mk(hb)))))
+            except Exception as e:  # noqa: BLE001
+                ctx.violation(f"C18:xarray-2dims:healthy-run-raised:{type(e).__name__}", {**wb, "error": repr(e)[:300]})
+                continue
+            ctx.count("c18.fault_runs")
+            ctx.count("c18.xarray_two_dimension_runs")
+            ctx.case(f"xarray-2dims|{fault[1]}|{order[0]}-first|nt{nt}ns{ns_}")
+            try:
+                got = snapshot(list(XarrayStream(ds).run(Config(mk(fb)))))
+            except Exception as e:  # noqa: BLE001
+                ctx.violation(f"C18:xarray-2dims:run-did-not-complete:{fault[1]}:{type(e).__name__}@{P.client_where(e)}", {**wb, "error": repr(e)[:300]})
+                continue
+            if got != ref:
+                ctx.violation(f"C18:xarray-2dims:results-differ-from-healthy-run:{fault[1]}",
+                              {**wb, "only_with_fault": [list(map(str, k)) for k in got if k not in ref],
+                               "disturbed": [list(map(str, k)) for k in ref if got.get(k) != ref[k]][:5]})
         ctx.exhaustive.append("fault kind (21) x position (5) x front end (8) x healthy set (3), " +
                               ("complete" if ctx.thorough else "every second combination"))
     finally:
